@@ -6,14 +6,81 @@ use chrono::DateTime;
 use indexmap::IndexMap;
 use rateslib::calendars::{CalType, Convention, Modifier, NamedCal};
 use rateslib::dual::{ADOrder, Number};
+use rateslib::curves::{
+    CurveDF, FlatBackwardInterpolator, FlatForwardInterpolator, LinearInterpolator, LinearZeroRateInterpolator,
+    LogLinearInterpolator, Nodes,
+};
+use rateslib::dual::{Dual, Dual2};
+use rateslib::json::JSON;
 use rateslib::verif_hooks::{index_left_f64, CurveHandle};
 use std::collections::HashMap;
 use std::io::Write;
 use std::panic::{catch_unwind, AssertUnwindSafe};
 
+/// A curve built through the crate's public `CurveDF` API directly (no `verif_hooks` wrapper in between): the
+/// constructor sorts the nodes itself and `JSON::from_json` is the per-type entry point.
+pub enum Direct {
+    Lin(CurveDF<LinearInterpolator, NamedCal>),
+    Log(CurveDF<LogLinearInterpolator, NamedCal>),
+    Lzr(CurveDF<LinearZeroRateInterpolator, NamedCal>),
+    Ff(CurveDF<FlatForwardInterpolator, NamedCal>),
+    Fb(CurveDF<FlatBackwardInterpolator, NamedCal>),
+}
+
+macro_rules! direct {
+    ($d:expr, $c:ident => $e:expr) => {
+        match $d {
+            Direct::Lin($c) => $e,
+            Direct::Log($c) => $e,
+            Direct::Lzr($c) => $e,
+            Direct::Ff($c) => $e,
+            Direct::Fb($c) => $e,
+        }
+    };
+}
+
+/// the node table of a serialised `CurveDF`, in document order
+#[derive(serde::Deserialize)]
+struct MirrorDoc {
+    nodes: MirrorNodes,
+}
+#[derive(serde::Deserialize)]
+enum MirrorNodes {
+    F64(IndexMap<i64, f64>),
+    Dual(IndexMap<i64, Dual>),
+    Dual2(IndexMap<i64, Dual2>),
+}
+
+impl Direct {
+    fn to_json(&self) -> Result<String, String> {
+        direct!(self, c => c.to_json().map_err(|e| e.to_string()))
+    }
+    /// to_json, then the type's own `from_json`
+    fn json_round_trip(&self) -> Result<Direct, String> {
+        let j = self.to_json()?;
+        Ok(match self {
+            Direct::Lin(_) => Direct::Lin(CurveDF::from_json(&j).map_err(|e| e.to_string())?),
+            Direct::Log(_) => Direct::Log(CurveDF::from_json(&j).map_err(|e| e.to_string())?),
+            Direct::Lzr(_) => Direct::Lzr(CurveDF::from_json(&j).map_err(|e| e.to_string())?),
+            Direct::Ff(_) => Direct::Ff(CurveDF::from_json(&j).map_err(|e| e.to_string())?),
+            Direct::Fb(_) => Direct::Fb(CurveDF::from_json(&j).map_err(|e| e.to_string())?),
+        })
+    }
+    fn nodes(&self) -> Result<Vec<(i64, Number)>, String> {
+        let j = self.to_json()?;
+        let m: MirrorDoc = serde_json::from_str(&j).map_err(|e| e.to_string())?;
+        Ok(match m.nodes {
+            MirrorNodes::F64(m) => m.into_iter().map(|(k, v)| (k, Number::F64(v))).collect(),
+            MirrorNodes::Dual(m) => m.into_iter().map(|(k, v)| (k, Number::Dual(v))).collect(),
+            MirrorNodes::Dual2(m) => m.into_iter().map(|(k, v)| (k, Number::Dual2(v))).collect(),
+        })
+    }
+}
+
 #[derive(Default)]
 pub struct CurveState {
     pub curves: HashMap<usize, CurveHandle>,
+    pub direct: HashMap<usize, Direct>,
 }
 
 fn order(s: &str) -> Option<ADOrder> {
@@ -78,34 +145,127 @@ pub fn step(ds: &DualState, st: &mut CurveState, t: &[&str]) -> Option<String> {
                 Err(_) => "panic".to_string(),
             }
         }
+        ["curvedf", id, interp, idstr, base, n, nodes @ ..] => {
+            // the public constructor, with float nodes in the order given
+            let id: usize = id.parse().ok()?;
+            let base = if *base == "-" { None } else { Some(pf(base)?) };
+            let n: usize = n.parse().ok()?;
+            if nodes.len() != 2 * n {
+                return None;
+            }
+            let mut map: IndexMap<chrono::NaiveDateTime, f64> = IndexMap::new();
+            for i in 0..n {
+                let d = day(nodes[2 * i].parse().ok()?);
+                map.insert(d, pf(nodes[2 * i + 1].strip_prefix('F')?)?);
+            }
+            let cal = NamedCal::try_new("all").unwrap();
+            let (cv, md) = (Convention::Act365F, Modifier::ModF);
+            let interp = interp.to_string();
+            let r = catch_unwind(AssertUnwindSafe(|| {
+                let nodes = Nodes::F64(map);
+                Ok::<Direct, String>(match interp.as_str() {
+                    "linear" => Direct::Lin(
+                        CurveDF::try_new(nodes, LinearInterpolator::new(), idstr, cv, md, base, cal).map_err(|_| "e")?,
+                    ),
+                    "log_linear" => Direct::Log(
+                        CurveDF::try_new(nodes, LogLinearInterpolator::new(), idstr, cv, md, base, cal).map_err(|_| "e")?,
+                    ),
+                    "linear_zero_rate" => Direct::Lzr(
+                        CurveDF::try_new(nodes, LinearZeroRateInterpolator::new(), idstr, cv, md, base, cal)
+                            .map_err(|_| "e")?,
+                    ),
+                    "flat_forward" => Direct::Ff(
+                        CurveDF::try_new(nodes, FlatForwardInterpolator::new(), idstr, cv, md, base, cal).map_err(|_| "e")?,
+                    ),
+                    "flat_backward" => Direct::Fb(
+                        CurveDF::try_new(nodes, FlatBackwardInterpolator::new(), idstr, cv, md, base, cal).map_err(|_| "e")?,
+                    ),
+                    _ => return Err("unknown".to_string()),
+                })
+            }));
+            match r {
+                Ok(Ok(c)) => {
+                    st.direct.insert(id, c);
+                    "ok".to_string()
+                }
+                Ok(Err(_)) => "err".to_string(),
+                Err(_) => "panic".to_string(),
+            }
+        }
+        ["cvjson", id] => {
+            // replace the curve by its own JSON round trip (the type's `to_json` / `from_json`)
+            let id: usize = id.parse().ok()?;
+            let c = st.direct.get(&id)?;
+            match catch_unwind(AssertUnwindSafe(|| c.json_round_trip())) {
+                Ok(Ok(c2)) => {
+                    st.direct.insert(id, c2);
+                    "ok".to_string()
+                }
+                Ok(Err(_)) => "err".to_string(),
+                Err(_) => "panic".to_string(),
+            }
+        }
         ["cvvalue", id, d] => {
-            let c = st.curves.get(&id.parse().ok()?)?;
+            let id: usize = id.parse().ok()?;
             let d = day(d.parse().ok()?);
+            if let Some(c) = st.direct.get(&id) {
+                return Some(guarded(|| direct!(c, c => fmt_num(&c.interpolated_value(&d)))));
+            }
+            let c = st.curves.get(&id)?;
             guarded(|| fmt_num(&c.value(d)))
         }
         ["cvindex", id, ts] => {
-            let c = st.curves.get(&id.parse().ok()?)?;
+            let id: usize = id.parse().ok()?;
             let ts: i64 = ts.parse().ok()?;
+            if let Some(c) = st.direct.get(&id) {
+                return Some(guarded(|| direct!(c, c => c.node_index(ts).to_string())));
+            }
+            let c = st.curves.get(&id)?;
             guarded(|| c.node_index(ts).to_string())
         }
         ["cvorder", id, k] => {
-            let c = st.curves.get_mut(&id.parse().ok()?)?;
+            let id: usize = id.parse().ok()?;
             let k = order(k)?;
+            if let Some(c) = st.direct.get_mut(&id) {
+                return Some(guarded(|| match direct!(c, c => c.set_ad_order(k)) {
+                    Ok(()) => "ok".to_string(),
+                    Err(_) => "err".to_string(),
+                }));
+            }
+            let c = st.curves.get_mut(&id)?;
             guarded(|| {
                 c.set_ad_order(k);
                 "ok".to_string()
             })
         }
         ["cvidxval", id, d] => {
-            let c = st.curves.get(&id.parse().ok()?)?;
+            let id: usize = id.parse().ok()?;
             let d = day(d.parse().ok()?);
+            if let Some(c) = st.direct.get(&id) {
+                return Some(guarded(|| match direct!(c, c => c.index_value(&d)) {
+                    Ok(v) => fmt_num(&v),
+                    Err(_) => "err".to_string(),
+                }));
+            }
+            let c = st.curves.get(&id)?;
             guarded(|| match c.index_value(d) {
                 Ok(v) => fmt_num(&v),
                 Err(_) => "err".to_string(),
             })
         }
         ["cvnodes", id] => {
-            let c = st.curves.get(&id.parse().ok()?)?;
+            let id: usize = id.parse().ok()?;
+            if let Some(c) = st.direct.get(&id) {
+                return Some(guarded(|| match c.nodes() {
+                    Ok(nodes) => {
+                        let parts: Vec<String> =
+                            nodes.iter().map(|(k, v)| format!("{} {}", k.div_euclid(86400), fmt_num(v))).collect();
+                        format!("N {} ; {}", nodes.len(), parts.join(" ; "))
+                    }
+                    Err(_) => "err".to_string(),
+                }));
+            }
+            let c = st.curves.get(&id)?;
             guarded(|| {
                 let nodes = c.nodes();
                 let parts: Vec<String> = nodes
@@ -116,8 +276,9 @@ pub fn step(ds: &DualState, st: &mut CurveState, t: &[&str]) -> Option<String> {
             })
         }
         ["cvad", id] => {
-            let c = st.curves.get(&id.parse().ok()?)?;
-            match c.ad() {
+            let id: usize = id.parse().ok()?;
+            let ad = if let Some(c) = st.direct.get(&id) { direct!(c, c => c.ad()) } else { st.curves.get(&id)?.ad() };
+            match ad {
                 ADOrder::Zero => "0",
                 ADOrder::One => "1",
                 ADOrder::Two => "2",
@@ -142,7 +303,13 @@ fn emit_curve<W: Write>(out: &mut W, r: &mut Rng, id: usize, rule: &str, ad: usi
     let nmax = if r.chance(1, 5) { 40 } else { 8 };
     let n = r.range(2, nmax) as usize;
     let mut days: Vec<i64> = Vec::new();
-    let mut d = r.range(10000, 20000);
+    // first node anywhere from 1960 to 2024: timestamps negative, of 7 to 10 digits, and straddling 1e9 (Sep 2001)
+    let mut d = match r.below(6) {
+        0 => r.range(-3650, 400),
+        1 => r.range(400, 11000),
+        2 => r.range(11400, 11600),
+        _ => r.range(10000, 20000),
+    };
     for _ in 0..n {
         days.push(d);
         // spacing from 1 day to 30 years
@@ -158,7 +325,10 @@ fn emit_curve<W: Write>(out: &mut W, r: &mut Rng, id: usize, rule: &str, ad: usi
     let mut v = if rule == "linear_zero_rate" && r.chance(3, 4) { 1.0 } else { r.logu(0.5, 2.0) };
     for _ in 0..n {
         vals.push(v);
-        v *= r.logu(0.85, 1.1);
+        // one step in six keeps the value: equal adjacent nodes (flat segments)
+        if !r.chance(1, 6) {
+            v *= r.logu(0.85, 1.1);
+        }
     }
     let mut order: Vec<usize> = (0..n).collect();
     r.shuffle(&mut order);
@@ -177,6 +347,16 @@ fn emit_curve<W: Write>(out: &mut W, r: &mut Rng, id: usize, rule: &str, ad: usi
     }
     let base = if with_base { hf(r.logu(50.0, 200.0)) } else { "-".to_string() };
     writeln!(out, "curve {} {} {} {} {} {} {}", id, rule, ad, idstr, base, n, node_toks.join(" ")).unwrap();
+    if !dual_nodes {
+        // the same curve through the public `CurveDF` constructor directly, as handle id + 1, nodes supplied in
+        // another order
+        r.shuffle(&mut order);
+        let toks: Vec<String> = order.iter().map(|&i| format!("{} F{}", days[i], hf(vals[i]))).collect();
+        writeln!(out, "curvedf {} {} {} {} {} {}", id + 1, rule, idstr, base, n, toks.join(" ")).unwrap();
+        if ad > 0 {
+            writeln!(out, "cvorder {} {}", id + 1, ad).unwrap();
+        }
+    }
     days
 }
 
@@ -234,6 +414,12 @@ pub fn gen_c11<W: Write>(out: &mut W, thorough: bool, seed: u64) {
         let days = emit_curve(out, &mut r, 1, rule, 0, false, false);
         writeln!(out, "cvnodes 1").unwrap();
         emit_queries(out, &mut r, 1, &days, 12);
+        // the directly constructed twin, before and after a JSON round trip
+        writeln!(out, "cvnodes 2").unwrap();
+        emit_queries(out, &mut r, 2, &days, 4);
+        writeln!(out, "cvjson 2").unwrap();
+        writeln!(out, "cvnodes 2").unwrap();
+        emit_queries(out, &mut r, 2, &days, 4);
         writeln!(out, "reset").unwrap();
     }
 }
@@ -269,6 +455,22 @@ pub fn gen_c12<W: Write>(out: &mut W, thorough: bool, seed: u64) {
             writeln!(out, "cvvalue 1 {}", d).unwrap();
         }
         writeln!(out, "cvidxval 1 {}", lo - 5).unwrap();
+        if !dual_nodes {
+            // the directly constructed twin: order switches interleaved with JSON round trips
+            writeln!(out, "cvnodes 2").unwrap();
+            for _ in 0..r.range(1, 4) {
+                match r.below(3) {
+                    0 => writeln!(out, "cvjson 2").unwrap(),
+                    _ => writeln!(out, "cvorder 2 {}", r.below(3)).unwrap(),
+                }
+                writeln!(out, "cvad 2").unwrap();
+                writeln!(out, "cvnodes 2").unwrap();
+                for p in &probes {
+                    writeln!(out, "cvvalue 2 {}", p).unwrap();
+                    writeln!(out, "cvidxval 2 {}", p).unwrap();
+                }
+            }
+        }
         writeln!(out, "reset").unwrap();
     }
 }
